@@ -29,6 +29,13 @@ CHECKS = {
             "algo.iteration, 1..3 environments, discrete/masked/box actions, wrapper stacks) is validated clause by clause.",
             "TableEnv / TableACPolicy stand-ins built on public extension points; production MLP policy covered by re-evaluation atoms.",
             "DESIGN.md section 4 C04"),
+    "C06": ("TLA+ ReplayRing spec: TLC exhaustive over insertion histories + trace validation of real ReplayBuffer.add/sample",
+            "TLC checks ReplayRing.tla (position % size ring, env-major joint sampling over stacked rings) against the declarative "
+            "recency / intactness / stored-only sentences for all capacities and insertion histories within bounds; add and sample "
+            "calls of the real ReplayBuffer (pytree observations, policy states, stacked rings with unequal fill levels, vmapped "
+            "adds) are validated slot by slot and row by row.",
+            "rows carry a unique tag in every leaf; sampling outcomes are validated by membership, never by value.",
+            "DESIGN.md section 4 C06"),
 }
 
 PENDING_REASON = "check not built yet in this round (planned: see DESIGN.md section 4); not claimed until its machinery exists"
